@@ -40,10 +40,15 @@ def snap(obj, path: str = "", out: dict | None = None, seen: dict | None = None,
         out[path] = f"{type(obj).__name__}:{obj.item()!r}"
         return out
     oid = id(obj)
-    if oid in seen:
+    # identity is tracked only for objects that live as long as the graph: temporaries created while
+    # walking (datasets extracted from a tree) and immutable tuples (CPython shares `()`) would otherwise
+    # produce spurious "<ref ...>" leaves when an id is recycled
+    track = not isinstance(obj, tuple)
+    if track and oid in seen:
         out[path] = f"<ref {seen[oid]}>"
         return out
-    seen[oid] = path
+    if track:
+        seen[oid] = path
     if isinstance(obj, np.ndarray):
         out[path] = _leaf_array(obj)
         return out
@@ -51,17 +56,21 @@ def snap(obj, path: str = "", out: dict | None = None, seen: dict | None = None,
     if mod.startswith("xarray"):
         try:
             import xarray as xr
+
+            def _dataset(ds, where):
+                for name in ds.variables:
+                    v = ds[name]
+                    out[f"{where}/{name}"] = f"{v.dims}:{_leaf_array(np.asarray(v.values))}"
+                out[where + "/<attrs>"] = repr(sorted((k, repr(v)) for k, v in ds.attrs.items()))
+
             if isinstance(obj, xr.DataTree):
                 out[path + "/<tree>"] = "DataTree:" + ",".join(sorted(obj.groups))
                 for g in obj.groups:
-                    ds = obj[g].to_dataset(inherit=False) if g != "/" else obj.to_dataset(inherit=False)
-                    snap(ds, f"{path}{g}", out, seen, skip, depth + 1)
+                    node = obj[g] if g != "/" else obj
+                    _dataset(node.to_dataset(inherit=False), f"{path}{g}")
                 return out
             if isinstance(obj, xr.Dataset):
-                for name in obj.variables:
-                    v = obj[name]
-                    out[f"{path}/{name}"] = f"{v.dims}:{_leaf_array(np.asarray(v.values))}"
-                out[path + "/<attrs>"] = repr(sorted((k, repr(v)) for k, v in obj.attrs.items()))
+                _dataset(obj, path)
                 return out
             if isinstance(obj, xr.DataArray):
                 out[path] = f"DataArray{obj.dims}:{_leaf_array(np.asarray(obj.values))}"
